@@ -77,24 +77,16 @@ Qed.
 
 (* gc frees exactly the blocks that are not reachable from the roots; the others
    keep address, size, code, contents and pointer fields *)
-Theorem gc_live : forall t roots t' o, Inv t -> gc t roots = (t', o) ->
+Theorem gc_live_abstract : forall t roots t' o, Inv t -> gc_with (gc_mark t roots) t = (t', o) ->
   Inv t' /\
   forall e, In e (live t') <-> In e (live t) /\ sreach t roots (fst (fst e)).
 Proof.
-  intros t roots t' o HI Hg. destruct (gc_spec t roots t' o HI Hg) as [HI' Hlive].
+  intros t roots t' o HI Hg. destruct (gc_with_spec _ t t' o HI Hg) as [HI' Hlive].
   split; [exact HI'|]. intros e. rewrite Hlive, filter_In. unfold SweepFacts.mk. rewrite is_marked_in.
   unfold gc_mark, sreach.
   rewrite (mark_exact Z addr addr_eqb (resolve t) (block_ptrs t) addr_eqb_spec (live_addrs t) roots
              (resolve_live t)). tauto.
 Qed.
-
-Theorem gc_keeps_reachable_store : forall t roots t' o e, Inv t -> gc t roots = (t', o) ->
-  In e (live t) -> sreach t roots (fst (fst e)) -> In e (live t').
-Proof. intros t roots t' o e HI Hg He Hr. apply (gc_live t roots t' o HI Hg). auto. Qed.
-
-Theorem gc_frees_only_unmarked_store : forall t roots t' o e, Inv t -> gc t roots = (t', o) ->
-  In e (live t') -> In e (live t) /\ sreach t roots (fst (fst e)).
-Proof. intros t roots t' o e HI Hg He. apply (gc_live t roots t' o HI Hg). assumption. Qed.
 
 (* an interior pointer into a live block resolves to that block: together with
    gc_keeps_reachable_store, a block whose only root is an interior pointer survives *)
@@ -104,28 +96,6 @@ Definition sections_disjoint (t : st) : Prop :=
     sect_base (get_sect t s1) * PgSize <= v < (sect_base (get_sect t s1) + sect_pages (get_sect t s1)) * PgSize ->
     sect_base (get_sect t s2) * PgSize <= v < (sect_base (get_sect t s2) + sect_pages (get_sect t s2)) * PgSize ->
     False.
-
-(* ---- every operation, every history -------------------------------------------- *)
-Require Import AV.Store.Steps.
-
-Theorem inv_step : forall t o, Inv t -> op_ok o -> Inv (fst (step t o)).
-Proof.
-  intros t o HI Hok. destruct (is_gc o) eqn:Eg.
-  - destruct o; try discriminate. cbn [step]. destruct (gc t roots) as [t' o'] eqn:E. cbn [fst].
-    apply (gc_live t roots t' o' HI E).
-  - apply inv_step_nogc; assumption.
-Qed.
-
-Lemma inv_run_from : forall ops t, Inv t -> Forall op_ok ops ->
-  Inv (fold_left (fun t o => fst (step t o)) ops t).
-Proof.
-  induction ops as [|o ops IH]; intros t HI Hall; cbn [fold_left]; [assumption|].
-  inversion Hall; subst. apply IH; [apply inv_step; assumption | assumption].
-Qed.
-
-(* the invariant holds after every history of operations (sizes non-negative) *)
-Theorem inv_run : forall ops, Forall op_ok ops -> Inv (run_ops ops).
-Proof. intros ops H. unfold run_ops. apply inv_run_from; [apply inv_init | assumption]. Qed.
 
 (* ---- interior pointers ------------------------------------------------------------ *)
 
@@ -224,17 +194,3 @@ Proof.
     cbn [Nat.add]. rewrite pget_app, Hk, poff_app. rewrite ?Z.add_0_l. reflexivity.
 Qed.
 
-(* the block handed out by stoAlloc is disjoint from every block that was live *)
-Theorem alloc_disjoint : forall t n code base t' a z c,
-  Inv t -> 0 < n -> alloc t n code base = (t', OAddr a z c) ->
-  forall e, In e (live t) -> blk_disjoint (a, z, new_binfo code) e.
-Proof.
-  intros t n code base t' a z c HI Hn Ha e He.
-  destruct (alloc_spec _ _ _ _ _ _ HI Hn Ha) as [HI' (_ & _ & _ & Hp)].
-  pose proof (live_nodup t' HI') as Hnd.
-  assert (Hnd' : NoDup ((a, z, new_binfo code) :: live t)) by (eapply Permutation_NoDup; eassumption).
-  inversion Hnd' as [|? ? Hnotin _]; subst.
-  assert (H1 : In (a, z, new_binfo code) (live t')) by (eapply Permutation_in; [symmetry; exact Hp | left; reflexivity]).
-  assert (H2 : In e (live t')) by (eapply Permutation_in; [symmetry; exact Hp | right; assumption]).
-  destruct (live_disjoint t' _ _ HI' H1 H2) as [Heq|Hd]; [subst; tauto | assumption].
-Qed.
